@@ -52,6 +52,12 @@ def gen_extract():
 def gen_coqproject():
     vs = sorted(glob.glob(os.path.join(COQ, "theories", "**", "*.v"), recursive=True))
     vs = [os.path.relpath(v, COQ) for v in vs if "/Extract/" not in v and "/Scratch/" not in v]
+    # files listed in coq/disabled.txt are kept out of the build (work in progress after a model change)
+    try:
+        off = {l.strip() for l in open(os.path.join(COQ, "disabled.txt")) if l.strip() and not l.startswith("#")}
+    except OSError:
+        off = set()
+    vs = [v for v in vs if v not in off]
     write_if_changed(os.path.join(COQ, "_CoqProject"), "-Q theories Avfs\n" + "\n".join(vs) + "\n")
 
 
